@@ -66,6 +66,8 @@ def _chunk_inner(args):
         out = {"stats": Counter(), "digests": [], "inter": set(), "abs_states": set(), "abs_trans": set(),
                "violations": [], "notes": [], "samples": [], "runs": 0, "nontrivial": 0,
                "sim_seconds": 0.0, "harness": None}
+        from . import simfs
+        snap0 = simfs.global_snapshot()
         for i in range(lo, hi):
             seed = kernel.run_seed(world + ":" + focus, batch_seed, i)
             try:
@@ -95,6 +97,11 @@ def _chunk_inner(args):
                     kernel.nontrivial(cls, res, focus) or i == hi - 1):
                 out["samples"].append({"run_index": i, "seed": seed, "steps": res["steps"],
                                        "outcomes": res["outcomes"]})
+        # run hygiene (diagnostic, never decides a property): module- and class-level state of
+        # tracklib that outlived the runs of this chunk and is not in the inventory of DESIGN.md 1.2
+        changed = [k for k in simfs.diff_snapshots(snap0, simfs.global_snapshot())]
+        if changed:
+            out["notes"].insert(0, "unlisted global changed (process state outlives a run): " + ", ".join(changed[:4]))
         return out
     finally:
         faulthandler.cancel_dump_traceback_later()
